@@ -67,26 +67,39 @@ Print Assumptions C12_adc_phase.
 Theorem C12_probe_value_unbatched (S : ScalOps) (par : Type) (mkT : par -> par -> op S)
     (mkE : Qc -> par -> par -> par -> op S) (mkP : Qc -> par -> op S)
     (seq : list (item S par)) (s : sm S) (tic : Qc) (j : nat) (p : probe S) (ph : S) :
-  nth_probe S par seq j = Some p -> pweights p = None -> reduces p = false -> pphasor p = Some [ph] ->
+  nth_probe S par seq j = Some p -> (forall fs, pq p <> QTuple fs) ->
+  pweights p = None -> reduces p = false -> pphasor p = Some [ph] ->
   nth j (fst (sim S par mkT mkE mkP seq [] [s] tic)) [] =
   [[(qeval (pq p) (run (ops_before S par mkT mkE mkP seq j) s) * ph)%K]].
 Proof. exact (probe_value_unbatched S par mkT mkE mkP seq s tic j p ph). Qed.
 Print Assumptions C12_probe_value_unbatched.
 
+(* tuple / list valued probe (Probe("(F0, Z0)"), Probe(lambda sm: (sm.F, sm.Z))) at the j-th occurrence: the
+   entry is the concatenation of its components evaluated on the state reached by the prefix *)
+Theorem C12_tuple_probe_value (S : ScalOps) (par : Type) (mkT : par -> par -> op S)
+    (mkE : Qc -> par -> par -> par -> op S) (mkP : Qc -> par -> op S)
+    (seq : list (item S par)) (b : bstate S) (tic : Qc) (j : nat) (p : probe S) (fs : list (sm S -> list S)) :
+  nth_probe S par seq j = Some p -> pq p = QTuple fs ->
+  pweights p = None -> reduces p = false -> pphasor p = None ->
+  nth j (fst (sim S par mkT mkE mkP seq [] b tic)) [] =
+  [flat_map (fun f => flat_map f (map (run (ops_before S par mkT mkE mkP seq j)) b)) fs].
+Proof. exact (tuple_probe_value S par mkT mkE mkP seq b tic j p fs). Qed.
+Print Assumptions C12_tuple_probe_value.
+
 (* weights along the batch axis: weighted sum when reducing (default with weights, True, axes),
    pointwise products with reduce=False, sum times the weight for a single weight *)
 Theorem C12_weights_reduce (S : ScalOps) (L : ScalLaws S) (p : probe S) (w : value S) (b : bstate S) :
   pweights p = Some w ->
-  (length w = length b -> preduce p <> RFalse -> pacq p b = [wsum S (map (qeval (pq p)) b) w]) /\
-  (length w = length b -> preduce p = RFalse ->
-     pacq p b = map (fun uv => (fst uv * snd uv)%K) (combine (map (qeval (pq p)) b) w)) /\
-  (forall c, w = [c] -> preduce p <> RFalse -> pacq p b = [(ksum (map (qeval (pq p)) b) * c)%K]).
+  (length w = length (qarr (pq p) b) -> preduce p <> RFalse -> pacq p b = [wsum S (qarr (pq p) b) w]) /\
+  (length w = length (qarr (pq p) b) -> preduce p = RFalse ->
+     pacq p b = map (fun uv => (fst uv * snd uv)%K) (combine (qarr (pq p) b) w)) /\
+  (forall c, w = [c] -> preduce p <> RFalse -> pacq p b = [(ksum (qarr (pq p) b) * c)%K]).
 Proof. exact (weights_reduce S L p w b). Qed.
 Print Assumptions C12_weights_reduce.
 
 Theorem C12_reduce_only (S : ScalOps) (p : probe S) (b : bstate S) :
   pweights p = None ->
-  pacq p b = if reduces p then [ksum (map (qeval (pq p)) b)] else map (qeval (pq p)) b.
+  pacq p b = if reduces p then [ksum (qarr (pq p) b)] else qarr (pq p) b.
 Proof. exact (reduce_only S p b). Qed.
 Print Assumptions C12_reduce_only.
 
@@ -144,13 +157,14 @@ Example C12_nonvacuous :
   let a : item QIops Qc := IProbe 6 (mkProbe (@QZ0 QIops) None RNone (Some [qi 0 1 1 1])) (Q2Qc 0) in
   let l := [Leaf t; Node true [Leaf w; Leaf a]; Leaf w; Leaf a] in
   ids_consistent QIops Qc (flat_seq l) /\
-  get_adc_times (modify_model QIops Qc Qcmult (Qc_eq_bool (Q2Qc 1)) (Q2Qc 10000000000) (Q2Qc 0) l
-                   (mkMP None (Some (Q2Qc 50)) None (Some (Q2Qc (1 # 2)))) true) = [Q2Qc 2; Q2Qc (7 # 2)] /\
-  fst (simulate_model QIops Qc (fun _ _ => OWait) (fun _ _ _ _ => OSpoil) (fun _ _ => OWait) l []
-         [@init QIops (qr 2 1)]) = @Single QIops [[qi 0 1 2 1]; [qi 0 1 2 1]].
+  qceqb (get_adc_times (modify_model QIops Qc Qcmult (Qc_eq_bool (Q2Qc 1)) (Q2Qc 10000000000) (Q2Qc 0) l
+                   (mkMP None (Some (Q2Qc 50)) None (Some (Q2Qc (1 # 2)))) true)) [Q2Qc 2; Q2Qc (7 # 2)] = true /\
+  simout_eqb (fst (simulate_model QIops Qc (fun _ _ => OWait) (fun _ _ _ _ => OSpoil) (fun _ _ => OWait) l []
+         [@init QIops (qr 2 1)])) (@Single QIops [[qi 0 1 2 1]; [qi 0 1 2 1]]) = true.
 Proof.
-  split; [|split; vm_compute; reflexivity].
-  intros i j Hi Hj. simpl in Hi, Hj.
-  repeat (destruct Hi as [<-|Hi]; [|]); try contradiction;
-  repeat (destruct Hj as [<-|Hj]; [|]); try contradiction; simpl; intros H; try reflexivity; discriminate.
+  intros w t a l. split; [|split; vm_compute; reflexivity].
+  intros i j Hi Hj Hid.
+  change (flat_seq l) with [t; w; a; w; a] in Hi, Hj.
+  destruct Hi as [<-|[<-|[<-|[<-|[<-|[]]]]]]; destruct Hj as [<-|[<-|[<-|[<-|[<-|[]]]]]];
+    try reflexivity; discriminate Hid.
 Qed.
